@@ -143,6 +143,13 @@ def str_cases(rng, strings, reps, depths, src):
                 "depth": depth, "where": where,
                 "arr": rng.random() < 0.3 and where == "value",
                 "cseed": rng.randint(0, 2**30)}})
+            if s and not set(s) & {"tab", "lf", "cr"} and rng.random() < 0.3:
+                # the string as a CIM name (attribute value); names with
+                # TAB/LF/CR are outside the domain (see assumptions)
+                out.append({"gen": "str", "src": src, "spec": {
+                    "s": list(s), "mode": rng.choice(["entity", "cdata"]),
+                    "depth": rng.choice(depths), "where": "name",
+                    "cseed": rng.randint(0, 2**30)}})
             if len(s) == 1 and s[0] not in ("astral",) and rng.random() < 0.5:
                 out.append({"gen": "str", "src": src, "spec": {
                     "s": list(s), "mode": rng.choice(["entity", "cdata"]),
